@@ -18,7 +18,7 @@ from . import mir
 VERIF = os.path.dirname(os.path.dirname(os.path.abspath(__file__)))
 REPO = os.environ.get('VERIF_REPO', '/repo')
 DRIVER = os.path.join(VERIF, 'driver', 'target', 'release', 'asv-driver')
-CACHE = os.path.join(VERIF, '.cache')
+CACHE = os.environ.get('VERIF_CACHE') or os.path.join(VERIF, '.cache')
 
 # id -> (features, release)
 CONFIGS = {
@@ -141,7 +141,7 @@ def extract_all(cfgs):
 
 
 def prune_cache(keep=3):
-    if not os.path.isdir(CACHE):
+    if not os.path.isdir(CACHE) or os.environ.get('VERIF_KEEP_CACHE'):
         return
     ents = [os.path.join(CACHE, d) for d in os.listdir(CACHE)]
     ents = [d for d in ents if os.path.isdir(d)]
